@@ -254,6 +254,34 @@ func main() {
 		lim := r.Intn(30) - 5
 		ex("go_Bound "+intL(xs)+" "+z(lim), z(fx.Bound(xs, lim)))
 	}
+	for i := 0; i < 60; i++ {
+		xs := ri(12, 1, 6)
+		t1, t2, t3 := fx.Tally(xs)
+		ex("go_Tally "+intL(xs), "("+z(t1)+", "+z(t2)+", "+b(t3)+")")
+		word := func() string { return []string{"a", "b", "*a", "*b", "ab", "*", "c", "*ab"}[r.Intn(8)] }
+		ws := func(n int) []string {
+			var o []string
+			for j, m := 0, r.Intn(n+1); j < m; j++ {
+				o = append(o, word())
+			}
+			return o
+		}
+		sl := func(x []string) string {
+			if len(x) == 0 {
+				return "(@nil (list N))"
+			}
+			var p []string
+			for _, c := range x {
+				p = append(p, bytesL([]byte(c)))
+			}
+			return "[" + strings.Join(p, "; ") + "]"
+		}
+		s1, s2 := fx.SumMap(xs)
+		ex("go_SumMap "+intL(xs), "("+z(s1)+", "+z(s2)+")")
+		ad, dr, pr := ws(7), ws(4), ws(5)
+		r1, r2, r3, r4 := fx.RegRun(ad, dr, pr)
+		ex("go_RegRun "+sl(ad)+" "+sl(dr)+" "+sl(pr), "("+z(r1)+", "+z(r2)+", "+z(r3)+", "+z(r4)+")")
+	}
 	// fuel exhaustion is reported, not papered over
 	ex("go_Walk 2%nat ([1; 65; 1; 66; 1; 67; 0]%N) (0)%Z", "None")
 	ex("go_WalkTwice 2%nat ([1; 65; 1; 66; 1; 67; 0]%N)", "None")
